@@ -42,8 +42,8 @@ func findIntersection(seg0, seg1 segment) (int, Point, Point) {
 	E := Point{p1.X - p0.X, p1.Y - p0.Y}
 	kross := d0.X*d1.Y - d0.Y*d1.X
 	sqrKross := kross * kross
-	sqrLen0 := lengthToOrigin(d0)
-	sqrLen1 := lengthToOrigin(d1)
+	sqrLen0 := d0.X*d0.X + d0.Y*d0.Y
+	sqrLen1 := d1.X*d1.X + d1.Y*d1.Y
 
 	if sqrKross > sqrEpsilon*sqrLen0*sqrLen1 {
 		// lines of the segments are not parallel
@@ -65,7 +65,7 @@ func findIntersection(seg0, seg1 segment) (int, Point, Point) {
 	}
 
 	// lines of the segments are parallel
-	sqrLenE := lengthToOrigin(E)
+	sqrLenE := E.X*E.X + E.Y*E.Y
 	kross = E.X*d0.Y - E.Y*d0.X
 	sqrKross = kross * kross
 	if sqrKross > sqrEpsilon*sqrLen0*sqrLenE {
